@@ -38,4 +38,23 @@ int first_negative(const std::vector<int>& v) {
     const auto it = std::find_if(v.begin(), v.end(), [](int a) { return a < 0; });
     return (it != v.end()) ? *it : 0;
 }
+int sum_from(const std::vector<int>& v, int x) {
+    auto it = std::lower_bound(v.begin(), v.end(), x);
+    int s = 0;
+    for (; it != v.end(); ++it) {
+        s += *it;
+    }
+    return s;
+}
+bool next_is(const std::vector<int>& v, int x, int y) {
+    const auto it = std::upper_bound(v.begin(), v.end(), x);
+    return (it != v.end()) && (*it == y);
+}
+int index_of(const std::vector<int>& v, int x) {
+    const auto it = std::find(v.begin(), v.end(), x);
+    if (v.end() == it) {
+        throw std::runtime_error("absent");
+    }
+    return int(it - v.begin()) + *it;
+}
 }   // namespace dsplib
